@@ -196,16 +196,16 @@ def vacuity_probe(scratch, unit_name, log=print):
     contracted function's header gets an extra `ensures false` and require that Verus REJECTS every one of them."""
     u = [x for x in X.load_units() if x.head["unit"] == unit_name][0]
     text, _ = X.build_unit(u, scratch.repo)
-    names = [f.name.split("::")[-1] for f in u.fns if f.header.strip() and "ensures" in f.header and not f.external_body]
+    fns = [f for f in u.fns if f.header.strip() and "ensures" in f.header and not f.external_body]
+    names = [f.name.split("::")[-1] for f in fns]
     probe = text
-    for nm in names:
-        # add `false,` right after the first `ensures` that follows `fn nm`
-        m = re.search(r"\bfn\s+%s\b" % re.escape(nm), probe)
-        if not m:
+    for f in fns:
+        # locate this function's spliced header text exactly (unique per function) and strengthen it
+        hdr = f.header.strip("\n")
+        at = probe.find(hdr)
+        if at < 0:
             continue
-        e = probe.find("ensures", m.end())
-        if e < 0:
-            continue
+        e = probe.find("ensures", at)
         probe = probe[:e + len("ensures")] + "\n        false," + probe[e + len("ensures"):]
     path = os.path.join(scratch.dir, "verus_%s_vacuity.rs" % unit_name)
     open(path, "w").write(probe)
